@@ -21,7 +21,7 @@ def run(tier, seed):
     extras = [[], [["Station", 0, "str"]], [["Wind", 99, "num"]], [["Station", 2, "str"], ["Wind", 4, "num"]],
               [["SnowDepth", 99, "nan"]], [["Flag", 1, "none"], ["SnowDepth", 3, "nan"]]]
     indexes = ["range", "shifted", "datetime", "labels", "datetime_shifted", "datetime_noon", "datetime_other"]
-    pads = [{}, {"pad_before": 37}, {"pad_before": 400, "pad_after": 200}]
+    pads = [{}, {"pad_before": 37}, {"pad_before": 400, "pad_after": 200}, {"pad_sparse": True}, {"pad_before": 300, "gap_before": "@start"}]
     space = [(p, e, i, d) for p in perms for e in extras for i in indexes for d in pads]
     jobs, pairs = [], []
 
@@ -31,18 +31,18 @@ def run(tier, seed):
         for p, e, i, d in combos:
             b = dict(sc)
             tr = {"perm": list(p), "extra_cols": e, "index": i}
-            tr.update(d)
+            tr.update({k: (sc["start"] if v == "@start" else v) for k, v in d.items()})
             b["_wx"] = tr
             jobs.append({"kind": "plain", "scenario": b})
             pairs.append({"a": a, "b": len(jobs) - 1, "rule": "identity", "scenario": b,
                           "label": {"crop": sc["crop"]["name"], "perm": list(p), "extra": [x[0] for x in e], "index": i, "pad": d}})
     if tier == "thorough":
-        add(fast, space)                                   # all 120 x 6 x 7 x 3 = 15120 on the short window
+        add(fast, space)                                   # all 120 x 6 x 7 x 5 = 25200 on the short window
         for sc in fulls:
             add(sc, rnd.sample(space, 40))
     else:
         # covering sample: every permutation position, every extra, index kind and padding at least once
-        combos = [(perms[0], extras[0], "shifted", pads[1]), (perms[0], extras[1], "datetime", pads[0]), (perms[0], extras[2], "labels", pads[2]),
+        combos = [(perms[0], extras[0], "range", pads[3]), (perms[5], extras[1], "shifted", pads[4]), (perms[0], extras[0], "shifted", pads[1]), (perms[0], extras[1], "datetime", pads[0]), (perms[0], extras[2], "labels", pads[2]),
                   (perms[0], extras[4], "range", pads[0]), (perms[7], extras[5], "shifted", pads[1])]
         combos += rnd.sample(space, 30)
         add(fast, combos)
